@@ -235,6 +235,8 @@ class Normalizer:
         for f in list(repo.funcs.values()):
             self._replace_node(f, self.modern_syntax(f))
         for f in list(repo.funcs.values()):
+            self._replace_node(f, self.library_loops(f))
+        for f in list(repo.funcs.values()):
             self._replace_node(f, self.callable_aliases(f))
         for f in list(repo.funcs.values()):
             self._replace_node(f, self.expand_star_args(f))  # early: `**T._asdict()` / `*T` must be gone before helpers are inlined
@@ -271,6 +273,7 @@ class Normalizer:
             self._replace_node(f, self.dissolve_objects(f))
         for f in list(repo.funcs.values()):
             self._replace_node(f, self.expand_star_args(f))
+        self.records_as_tuples()
         self._drop_unreferenced()
         for f in list(repo.funcs.values()):
             self._replace_node(f, self.inline_temps(f))  # the result locals N1 introduced
@@ -292,6 +295,16 @@ class Normalizer:
             self._replace_node(f, self.desugar_listcomp(f))
         for f in list(repo.funcs.values()):
             self._replace_node(f, self.desugar_next(f))
+        # helper calls that sat in comprehension elements / generator arguments are statements of loops now
+        for _ in range(3):
+            changed = False
+            for f in list(repo.funcs.values()):
+                new2 = self.inline_in(f)
+                if new2 is not None:
+                    self._replace_node(f, new2)
+                    changed = True
+            if not changed:
+                break
         for f in list(repo.funcs.values()):
             self._replace_node(f, self.unpack_records(f))
         for f in list(repo.funcs.values()):
@@ -790,6 +803,9 @@ class Normalizer:
                     # defined in one module and imported by the other: the same object when both resolve to it
                     ra, rb = self.repo.resolve_name(n.id, home), self.repo.resolve_name(n.id, target)
                     if ra is not None and ra is rb:
+                        continue
+                    if n.id in home.imports and n.id not in target.imports and rb is None and not hasattr(builtins, n.id) and n.id not in target.consts:
+                        adds[n.id] = home.imports[n.id]  # the target module no longer names it: the moved body keeps the home meaning
                         continue
                     return False
                 a_, b_ = self.repo.resolve_name(n.id, home), self.repo.resolve_name(n.id, target)
@@ -2908,6 +2924,272 @@ class Normalizer:
         ast.fix_missing_locations(new_fn)
         self.log.setdefault("inlined", []).append(f"{f.qual}: partial applications / reduce written out")
         return new_fn
+
+    # ------------------------------------------------------------------------------------------ N37 / N38
+    def library_loops(self, f: Func) -> t.Optional[FuncNode]:
+        """N37  iteration helpers of the standard library written as the loops they are:
+                  for _ in itertools.repeat(None, n)            ->  for _ in range(n)
+                  (.. for x in itertools.chain.from_iterable(X) ..) / for x in chain.from_iterable(X): B
+                                                                ->  (.. for row in X for x in row ..) / nested for
+                  for x in itertools.chain(A, B): BODY          ->  for x in A: BODY ; for x in B: BODY   (BODY without break)
+                  F in E  with F a member of an IntFlag class of the package   ->  E & F == F"""
+        fn = f.node
+        repo = self.repo
+        hit = [False]
+        counter = [0]
+
+        def dotted(e: ast.AST) -> str:
+            return (repo.dotted(e, f.mod) or "") if isinstance(e, (ast.Name, ast.Attribute)) else ""
+
+        def is_call(e: ast.AST, name: str) -> bool:
+            return isinstance(e, ast.Call) and dotted(e.func) == name and not e.keywords and not any(isinstance(a, ast.Starred) for a in e.args)
+
+        class E(ast.NodeTransformer):
+            def visit_comprehension(self, node: ast.comprehension) -> t.Any:
+                self.generic_visit(node)
+                return node
+
+            def _comp(self, node: t.Any) -> ast.AST:
+                self.generic_visit(node)
+                gens: t.List[ast.comprehension] = []
+                for g in node.generators:
+                    if is_call(g.iter, "itertools.chain.from_iterable") and len(g.iter.args) == 1 and not g.is_async:
+                        counter[0] += 1
+                        row = f"row__c{counter[0]}"
+                        gens.append(ast.comprehension(target=ast.Name(id=row, ctx=ast.Store()), iter=g.iter.args[0], ifs=[], is_async=0))
+                        gens.append(ast.comprehension(target=g.target, iter=ast.Name(id=row, ctx=ast.Load()), ifs=g.ifs, is_async=0))
+                        hit[0] = True
+                    else:
+                        gens.append(g)
+                node.generators = gens
+                return node
+
+            visit_GeneratorExp = _comp
+            visit_ListComp = _comp
+            visit_SetComp = _comp
+
+            def visit_Compare(self, node: ast.Compare) -> ast.AST:
+                self.generic_visit(node)
+                if len(node.ops) == 1 and isinstance(node.ops[0], (ast.In, ast.NotIn)) and isinstance(node.left, ast.Attribute) and _is_pure(node.comparators[0]):
+                    try:
+                        r = repo.resolve(node.left.value, f.mod)
+                    except Exception:
+                        r = None
+                    if isinstance(r, Cls) and r.enum_kind() in ("enum.IntFlag", "enum.Flag") and node.left.attr in repo.enum_members(r):
+                        hit[0] = True
+                        test = ast.Compare(left=ast.BinOp(left=node.comparators[0], op=ast.BitAnd(), right=copy.deepcopy(node.left)), ops=[ast.Eq() if isinstance(node.ops[0], ast.In) else ast.NotEq()], comparators=[copy.deepcopy(node.left)])
+                        return ast.copy_location(test, node)
+                return node
+
+        def has_break(body: t.List[ast.stmt]) -> bool:
+            stack: t.List[ast.AST] = list(body)
+            while stack:
+                n = stack.pop()
+                if isinstance(n, ast.Break):
+                    return True
+                if isinstance(n, (ast.For, ast.AsyncFor, ast.While, ast.FunctionDef, ast.AsyncFunctionDef, ast.ClassDef, ast.Lambda)):
+                    continue
+                stack.extend(ast.iter_child_nodes(n))
+            return False
+
+        def block(stmts: t.List[ast.stmt]) -> t.List[ast.stmt]:
+            out: t.List[ast.stmt] = []
+            for s in stmts:
+                if isinstance(s, (ast.FunctionDef, ast.AsyncFunctionDef, ast.ClassDef)):
+                    out.append(s)
+                    continue
+                for fld in ("body", "orelse", "finalbody"):
+                    blk = getattr(s, fld, None)
+                    if isinstance(blk, list) and blk and isinstance(blk[0], ast.stmt):
+                        setattr(s, fld, block(blk))
+                if isinstance(s, ast.Try):
+                    for h in s.handlers:
+                        h.body = block(h.body)
+                if isinstance(s, ast.For) and not s.orelse:
+                    it = s.iter
+                    if is_call(it, "itertools.repeat") and len(it.args) == 2:
+                        s.iter = ast.copy_location(ast.Call(func=ast.Name(id="range", ctx=ast.Load()), args=[it.args[1]], keywords=[]), it)
+                        hit[0] = True
+                    elif is_call(it, "itertools.chain.from_iterable") and len(it.args) == 1:
+                        counter[0] += 1
+                        row = f"row__c{counter[0]}"
+                        inner = ast.copy_location(ast.For(target=s.target, iter=ast.Name(id=row, ctx=ast.Load()), body=s.body, orelse=[], lineno=s.lineno), s)
+                        if not has_break(s.body):
+                            s = ast.copy_location(ast.For(target=ast.Name(id=row, ctx=ast.Store()), iter=it.args[0], body=[inner], orelse=[], lineno=s.lineno), s)
+                            hit[0] = True
+                    elif is_call(it, "itertools.chain") and 1 <= len(it.args) <= 3 and not has_break(s.body) and all(_is_pure(a) or isinstance(a, (ast.List, ast.Tuple)) for a in it.args):
+                        for a in it.args:
+                            out.append(ast.copy_location(ast.For(target=copy.deepcopy(s.target), iter=a, body=copy.deepcopy(s.body), orelse=[], lineno=s.lineno), s))
+                        hit[0] = True
+                        continue
+                out.append(s)
+            return out
+
+        if not any(isinstance(n, (ast.Compare, ast.Call)) for n in ast.walk(fn)):
+            return None
+        new = copy.deepcopy(fn)
+        # an iterator built by itertools / map and bound to a local that is read once, in the next statement, is read there
+        loads: t.Dict[str, int] = {}
+        stores_: t.Dict[str, int] = {}
+        for n in _walk_no_scopes(new):
+            if isinstance(n, ast.Name):
+                d_ = loads if isinstance(n.ctx, ast.Load) else stores_
+                d_[n.id] = d_.get(n.id, 0) + 1
+
+        def inline_iters(stmts: t.List[ast.stmt]) -> t.List[ast.stmt]:
+            out: t.List[ast.stmt] = []
+            for s in stmts:
+                if not isinstance(s, (ast.FunctionDef, ast.AsyncFunctionDef, ast.ClassDef)):
+                    for fld in ("body", "orelse", "finalbody"):
+                        blk = getattr(s, fld, None)
+                        if isinstance(blk, list) and blk and isinstance(blk[0], ast.stmt):
+                            setattr(s, fld, inline_iters(blk))
+                prev = out[-1] if out else None
+                if isinstance(prev, ast.Assign) and len(prev.targets) == 1 and isinstance(prev.targets[0], ast.Name) and isinstance(prev.value, ast.Call) and (dotted(prev.value.func).startswith("itertools.") or dotted(prev.value.func) == "map"):
+                    nm = prev.targets[0].id
+                    if stores_.get(nm) == 1 and loads.get(nm) == 1:
+                        uses = [x for x in ast.walk(s) if isinstance(x, ast.Name) and x.id == nm and isinstance(x.ctx, ast.Load)]
+                        if len(uses) == 1 and not isinstance(s, (ast.For, ast.While, ast.If, ast.With, ast.Try)):
+                            s = t.cast(ast.stmt, _replace_in_expr(s, uses[0], prev.value))
+                            out.pop()
+                            hit[0] = True
+                        elif len(uses) == 1 and isinstance(s, ast.For) and s.iter is uses[0]:
+                            s.iter = prev.value
+                            out.pop()
+                            hit[0] = True
+                out.append(s)
+            return out
+
+        new.body = inline_iters(list(new.body))
+
+        class M(ast.NodeTransformer):
+            """map(F, IT) -> (F(x) for x in IT);  list(<genexp>) -> [<listcomp>]"""
+
+            def visit_Call(self, node: ast.Call) -> ast.AST:
+                self.generic_visit(node)
+                if isinstance(node.func, ast.Name) and node.func.id == "map" and len(node.args) == 2 and not node.keywords and not any(isinstance(a, ast.Starred) for a in node.args) and (_is_pure(node.args[0]) or isinstance(node.args[0], ast.Lambda)):
+                    counter[0] += 1
+                    x = f"x__m{counter[0]}"
+                    fx = node.args[0]
+                    if isinstance(fx, ast.Lambda) and len(fx.args.args) == 1 and not fx.args.defaults and not fx.args.vararg and not fx.args.kwarg:
+                        p_ = fx.args.args[0].arg
+
+                        class S_(ast.NodeTransformer):
+                            def visit_Name(self, n: ast.Name) -> ast.AST:
+                                return ast.Name(id=x, ctx=ast.Load()) if n.id == p_ and isinstance(n.ctx, ast.Load) else n
+
+                        elt: ast.expr = S_().visit(copy.deepcopy(fx.body))
+                    else:
+                        elt = ast.Call(func=fx, args=[ast.Name(id=x, ctx=ast.Load())], keywords=[])
+                    hit[0] = True
+                    return ast.copy_location(ast.GeneratorExp(elt=elt, generators=[ast.comprehension(target=ast.Name(id=x, ctx=ast.Store()), iter=node.args[1], ifs=[], is_async=0)]), node)
+                if isinstance(node.func, ast.Name) and node.func.id == "list" and len(node.args) == 1 and not node.keywords and isinstance(node.args[0], ast.GeneratorExp):
+                    hit[0] = True
+                    return ast.copy_location(ast.ListComp(elt=node.args[0].elt, generators=node.args[0].generators), node)
+                return node
+
+        M().visit(new)
+        E().visit(new)
+        new.body = block(list(new.body))
+        if not hit[0]:
+            return None
+        ast.fix_missing_locations(new)
+        return new
+
+    def records_as_tuples(self) -> None:
+        """N38  A new NamedTuple class of the package (not in the inventory, no instance methods or properties) is the tuple
+        of its fields: attribute reads `x.f` on values known to be of that class become `x[i]`, then the constructor calls
+        `C(a, b)` / `C(f=a, g=b)` become the tuple display - the form in which the reference tree passes several values."""
+        repo = self.repo
+        new_classes = getattr(repo, "new_classes", set())
+        recs: t.Dict[str, Cls] = {}
+        for q in new_classes:
+            c = repo.classes.get(q)
+            if c is None or not any(x.endswith("NamedTuple") for x in c.ext_bases):
+                continue
+            if any(not (m.is_staticmethod or m.is_classmethod) for m in c.methods.values()):
+                continue
+            recs[c.name] = c
+        if not recs:
+            return
+        fields = {n: [p_.name for p_ in c.init_params()] for n, c in recs.items()}
+
+        def ann_rec(ann: t.Optional[ast.expr]) -> t.Optional[str]:
+            if ann is None:
+                return None
+            if isinstance(ann, ast.Constant) and isinstance(ann.value, str):
+                try:
+                    ann = ast.parse(ann.value, mode="eval").body
+                except SyntaxError:
+                    return None
+            if isinstance(ann, ast.Subscript) and unparse(ann.value).endswith("Optional"):
+                ann = ann.slice
+            return ann.id if isinstance(ann, ast.Name) and ann.id in recs else None
+
+        for f in list(repo.funcs.values()):
+            fn = f.node
+            typed: t.Dict[str, str] = {}
+            for a in _params(fn):
+                r = ann_rec(a.annotation)
+                if r:
+                    typed[a.arg] = r
+            stores: t.Dict[str, int] = {}
+            for n in _walk_no_scopes(fn):
+                if isinstance(n, ast.Name) and isinstance(n.ctx, (ast.Store, ast.Del)):
+                    stores[n.id] = stores.get(n.id, 0) + 1
+            for n in _walk_no_scopes(fn):
+                if isinstance(n, ast.AnnAssign) and isinstance(n.target, ast.Name) and ann_rec(n.annotation):
+                    typed[n.target.id] = t.cast(str, ann_rec(n.annotation))
+                if isinstance(n, ast.Assign) and len(n.targets) == 1 and isinstance(n.targets[0], ast.Name) and stores.get(n.targets[0].id) == 1 and isinstance(n.value, ast.Call):
+                    fx = n.value.func
+                    if isinstance(fx, ast.Name) and fx.id in recs and repo.resolve_name(fx.id, f.mod) is recs[fx.id]:
+                        typed[n.targets[0].id] = fx.id
+                    else:
+                        cal = self._callee(f, n.value, stored_names(fn) | {a_.arg for a_ in _params(fn)})
+                        if cal is not None and ann_rec(cal[0].node.returns):
+                            typed[n.targets[0].id] = t.cast(str, ann_rec(cal[0].node.returns))
+            hit = [False]
+
+            class T(ast.NodeTransformer):
+                def visit_Attribute(self, node: ast.Attribute) -> ast.AST:
+                    self.generic_visit(node)
+                    if isinstance(node.ctx, ast.Load) and isinstance(node.value, ast.Name) and node.value.id in typed and node.attr in fields[typed[node.value.id]]:
+                        hit[0] = True
+                        return ast.copy_location(ast.Subscript(value=node.value, slice=ast.Constant(value=fields[typed[node.value.id]].index(node.attr)), ctx=ast.Load()), node)
+                    # a call that returns the record, read on the spot: g(..).f
+                    if isinstance(node.ctx, ast.Load) and isinstance(node.value, ast.Call):
+                        cal = self_._callee(f, node.value, stored_names(fn) | {a_.arg for a_ in _params(fn)})
+                        rname = ann_rec(cal[0].node.returns) if cal is not None else None
+                        if rname and node.attr in fields[rname]:
+                            hit[0] = True
+                            return ast.copy_location(ast.Subscript(value=node.value, slice=ast.Constant(value=fields[rname].index(node.attr)), ctx=ast.Load()), node)
+                    return node
+
+                def visit_Call(self, node: ast.Call) -> ast.AST:
+                    self.generic_visit(node)
+                    if isinstance(node.func, ast.Name) and node.func.id in recs and repo.resolve_name(node.func.id, f.mod) is recs[node.func.id] and not any(isinstance(a, ast.Starred) for a in node.args) and all(k.arg for k in node.keywords):
+                        fl = fields[node.func.id]
+                        given: t.Dict[str, ast.expr] = dict(zip(fl, node.args))
+                        for k in node.keywords:
+                            given[t.cast(str, k.arg)] = k.value
+                        c = recs[node.func.id]
+                        for p_ in c.init_params():
+                            if p_.name not in given and p_.default is not None:
+                                okd, val = repo.try_fold(p_.default, c.mod)
+                                if okd and isinstance(val, (int, bytes, str, bool, type(None))):
+                                    given[p_.name] = ast.Constant(value=val)
+                        if set(given) == set(fl) and len(node.args) <= len(fl):
+                            hit[0] = True
+                            return ast.copy_location(ast.Tuple(elts=[given[n_] for n_ in fl], ctx=ast.Load()), node)
+                    return node
+
+            self_ = self
+            new = copy.deepcopy(fn)
+            T().visit(new)
+            if hit[0]:
+                ast.fix_missing_locations(new)
+                self._replace_node(f, new)
+        self.log.setdefault("inlined", []).append("new NamedTuple carriers read as tuples: " + ", ".join(sorted(recs)))
 
     # ------------------------------------------------------------------------------------------ N26
     def expand_star_args(self, f: Func) -> t.Optional[FuncNode]:
